@@ -24,7 +24,7 @@ func (o *Operations) Update(
 	compressionLevel string,
 	replace bool,
 	skipSizeCheck bool,
-) ([]*tar.Header, error) {
+) (updated []*tar.Header, updateErr error) {
 	o.diskOperationLock.Lock()
 	defer o.diskOperationLock.Unlock()
 
@@ -53,6 +53,29 @@ func (o *Operations) Update(
 	}
 
 	hdrs := []*tar.Header{}
+
+	// If a later file of the batch can't be updated (i.e. because it can't be opened), the records of the files before it are completely on the tape: finish the archive and index them before reporting the error, or the tape ends in the middle of a block and holds records which the index doesn't know about
+	complete := 0     // Number of headers in `hdrs` whose record is completely on the tape
+	inFlight := false // Whether a record is partly on the tape
+	defer func() {
+		if updateErr == nil || writerClosed || !dirty || inFlight || complete <= 0 {
+			return
+		}
+
+		hdrs = hdrs[:complete]
+
+		if err := cleanup(&dirty); err != nil {
+			return
+		}
+
+		writerClosed = true
+		if err := o.backend.CloseWriter(); err != nil {
+			return
+		}
+
+		_ = o.indexUpdated(hdrs, lastIndexedRecord, lastIndexedBlock)
+	}()
+
 	for {
 		file, err := getSrc()
 		if err == io.EOF {
@@ -187,6 +210,7 @@ func (o *Operations) Update(
 				return []*tar.Header{}, err
 			}
 
+			inFlight = true
 			if err := tw.WriteHeader(hdr); err != nil {
 				return []*tar.Header{}, err
 			}
@@ -194,6 +218,9 @@ func (o *Operations) Update(
 			dirty = true
 
 			if !file.Info.Mode().IsRegular() || (!skipSizeCheck && file.Info.Size() <= 0) {
+				inFlight = false
+				complete = len(hdrs)
+
 				if f != nil {
 					if err := f.Close(); err != nil {
 						return []*tar.Header{}, err
@@ -247,6 +274,9 @@ func (o *Operations) Update(
 				return []*tar.Header{}, err
 			}
 
+			inFlight = false
+			complete = len(hdrs)
+
 			if err := f.Close(); err != nil {
 				return []*tar.Header{}, err
 			}
@@ -278,9 +308,13 @@ func (o *Operations) Update(
 				return []*tar.Header{}, err
 			}
 
+			inFlight = true
 			if err := tw.WriteHeader(hdr); err != nil {
 				return []*tar.Header{}, err
 			}
+
+			inFlight = false
+			complete = len(hdrs)
 		}
 
 		dirty = true
@@ -295,13 +329,21 @@ func (o *Operations) Update(
 		return []*tar.Header{}, err
 	}
 
+	return hdrs, o.indexUpdated(hdrs, lastIndexedRecord, lastIndexedBlock)
+}
+
+func (o *Operations) indexUpdated(
+	hdrs []*tar.Header,
+	lastIndexedRecord int64,
+	lastIndexedBlock int64,
+) error {
 	reader, err := o.backend.GetReader()
 	if err != nil {
-		return []*tar.Header{}, err
+		return err
 	}
 	defer o.backend.CloseReader()
 
-	return hdrs, recovery.Index(
+	return recovery.Index(
 		reader,
 		o.backend.MagneticTapeIO,
 		o.metadata,
